@@ -410,6 +410,15 @@ func (env *SpecEnv) evalBinary(x *ast.BinaryExpr) Val {
 			return intVal(Mul(a, IntBig(pow2(k))))
 		}
 	}
+	if x.Op == token.AND {
+		if k, ok := b.Int64(); ok && k >= 0 && isPow2(k+1) {
+			return intVal(EMod(a, IntK(k+1)))
+		}
+		if r := andPow2(a, b); r != nil {
+			return intVal(r)
+		}
+		return intVal(App("bitop_"+sanitize(x.Op.String()), SInt, a, b))
+	}
 	env.errorf("unsupported operator %s in spec", x.Op)
 	return intVal(Zero)
 }
@@ -636,6 +645,38 @@ func (env *SpecEnv) evalCall(x *ast.CallExpr) Val {
 	}
 	if v, ok := env.ghostCall(name, x); ok {
 		return v
+	}
+	// a call of a PURE contracted/extern function of the program without postconditions: the same uninterpreted
+	// application the code's own calls evaluate to (so a spec can name `parse.EqualFold(a, b)` as the code does)
+	if sel, ok := x.Fun.(*ast.SelectorExpr); ok && env.pkg != nil {
+		if pid, ok := sel.X.(*ast.Ident); ok {
+			for path, imp := range env.pkg.Imports {
+				if imp.Name != pid.Name && !strings.HasSuffix(path, "/"+pid.Name) {
+					continue
+				}
+				fn, _ := imp.Types.Scope().Lookup(sel.Sel.Name).(*types.Func)
+				if fn == nil {
+					continue
+				}
+				full := funcFullName(fn)
+				con := vc.prog.Contracts[full]
+				sig := fn.Type().(*types.Signature)
+				if con == nil || !con.Pure || len(con.Ensures) != 0 || sig.Results().Len() != 1 {
+					env.errorf("spec call of %s: only pure functions without postconditions can be named in specs", full)
+					return intVal(Zero)
+				}
+				var as []*Term
+				for _, a := range x.Args {
+					as = append(as, vc.pureArgTerms(env.st, env.eval(a))...)
+				}
+				l := layout(sig.Results().At(0).Type())
+				if len(l) != 1 {
+					env.errorf("spec call of %s: result is not a scalar", full)
+					return intVal(Zero)
+				}
+				return mkVal(sig.Results().At(0).Type(), App("pure:"+full, l[0].Sort, as...))
+			}
+		}
 	}
 	env.errorf("unknown spec function %s", name)
 	return intVal(Zero)
